@@ -23,6 +23,19 @@ func HarnessC14Lengths() {
 	verifReach("end")
 }
 
+// HarnessC14LengthsBytes: the same on strings of up to 4 arbitrary bytes (well-formed UTF-8 or not):
+// every byte that does not start a well-formed sequence is one code point, as Go counts them.
+func HarnessC14LengthsBytes() {
+	s := verifBytesStr(4)
+	n := int64(verifChoose(6))
+	gotMin := MinLength("p", "body", s, n) != nil
+	gotMax := MaxLength("p", "body", s, n) != nil
+	r := verifRuneCount(s)
+	verifAssert(gotMin == (r < n), "minlength-counts-code-points")
+	verifAssert(gotMax == (r > n), "maxlength-counts-code-points")
+	verifReach("end")
+}
+
 // HarnessC14Items: MinItems / MaxItems compare sizes.
 func HarnessC14Items() {
 	size, n := verifInt64(), verifInt64()
